@@ -1,5 +1,11 @@
 package props
 
+import (
+	"unsafe"
+
+	"verif/harness/cluster"
+)
+
 // bgroup is a WaitGroup replacement for use inside synctest bubbles: go1.25's
 // sync.WaitGroup remembers the bubble it was first used in by address, and a
 // WaitGroup allocated at a recycled address in another bubble makes the runtime
@@ -26,4 +32,31 @@ func (g *bgroup) Wait() {
 	for ; g.n > 0; g.n-- {
 		<-g.ch
 	}
+}
+
+// qTracker recognises NEW entries of a node's broadcast queues by the identity
+// of their buffers (the delegate hands out the queued slices themselves).
+type qTracker struct {
+	seen map[uintptr]bool
+	pin  [][]byte // keeps every seen buffer alive so its address is never recycled
+}
+
+func newQTracker() *qTracker { return &qTracker{seen: map[uintptr]bool{}} }
+
+// Poll asks the delegate once for everything queued and returns the contents of
+// entries not seen before.
+func (tr *qTracker) Poll(nd *cluster.Node) [][]byte {
+	var fresh [][]byte
+	for _, m := range nd.ML.Delegate.GetBroadcasts(0, 1<<30) {
+		if len(m) == 0 {
+			continue
+		}
+		p := uintptr(unsafe.Pointer(&m[0]))
+		if !tr.seen[p] {
+			tr.seen[p] = true
+			tr.pin = append(tr.pin, m)
+			fresh = append(fresh, m)
+		}
+	}
+	return fresh
 }
